@@ -116,6 +116,9 @@ mod arb {
     macro_rules! typed {
         ($bytes:expr, $t:ty, $dump:path) => {{
             let mut u = Unstructured::new($bytes);
+            if let Ok(x) = <$t as Arbitrary>::arbitrary_take_rest(Unstructured::new($bytes)) {
+                if let Err(e) = texts_ok(&$dump(&x)) { return format!("take-rest:{}", e); }
+            }
             match <$t as Arbitrary>::arbitrary(&mut u) {
                 Ok(x) => {
                     let v = $dump(&x);
@@ -172,6 +175,17 @@ mod arb {
                         ctap_types::authenticator::Request::Ctap2(r2) => ctap2_valid(r2),
                     }.and_then(|_| { let _ = format!("{:?}", r); if r.clone() != r { Err("clone-differs".to_string()) } else { Ok(()) } })),
                 };
+                // the other entry point of the trait (the one fuzz targets use): same validity demands
+                let u2 = Unstructured::new(bytes);
+                let rest: Result<Result<(), String>, arbitrary::Error> = match ty {
+                    "ctap2::Request" => ctap_types::ctap2::Request::arbitrary_take_rest(u2).map(|r| ctap2_valid(&r)),
+                    "ctap1::Request" => ctap_types::ctap1::Request::arbitrary_take_rest(u2).map(|r| ctap1_valid(&r)),
+                    _ => ctap_types::authenticator::Request::arbitrary_take_rest(u2).map(|r| match &r {
+                        ctap_types::authenticator::Request::Ctap1(r1) => ctap1_valid(r1),
+                        ctap_types::authenticator::Request::Ctap2(r2) => ctap2_valid(r2),
+                    }),
+                };
+                if let Ok(Err(e)) = rest { return format!("take-rest:{}", e); }
                 match res {
                     Ok(Ok(())) => "valid generated".into(),
                     Ok(Err(e)) => e,
@@ -313,7 +327,10 @@ fn handle(line: &str, big: &mut [u8]) -> String {
                         PreviewCredentialManagement => "PreviewCredentialManagement", Vendor(_) => "Vendor",
                         _ => "?",
                     };
-                    format!("ok {} {}", name, op.into_u8())
+                    // both ways back to the byte must agree: the inherent `into_u8` and `From<Operation> for u8`
+                    let (a, b2) = (op.into_u8(), u8::from(op));
+                    if a != b2 { return format!("ok {} into_u8={} from={}", name, a, b2); }
+                    format!("ok {} {}", name, a)
                 }
                 Err(()) => "err".into(),
             }
@@ -460,7 +477,13 @@ fn handle(line: &str, big: &mut [u8]) -> String {
         ["call1", entry, apdu, fail] => {
             use ctap_types::ctap1::{Authenticator, Request, Response};
             use ctap_types::Rpc;
-            let fail = if *fail == "-" { None } else { Some((fail.to_string(), 0u8)) };
+            let fail = if *fail == "-" { None } else {
+                let mut it = fail.split(':');
+                let m = it.next().unwrap_or("").to_string();
+                let k = it.next().and_then(|k| k.parse::<u8>().ok()).unwrap_or(0);
+                Some((m, k))
+            };
+            let injected = fail.as_ref().map(|(_, k)| mock::status_of(*k));
             let bytes = unhex(apdu).expect("harness: hex");
             let view = iso7816::command::CommandView::try_from(bytes.as_slice()).expect("harness: apdu");
             let request = match Request::try_from(view) { Ok(r) => r, Err(_) => return "bad-case harness:_apdu_rejected".into() };
@@ -469,7 +492,8 @@ fn handle(line: &str, big: &mut [u8]) -> String {
             let r = match res {
                 Ok(Response::Register(_)) => "ok Register".to_string(), Ok(Response::Authenticate(_)) => "ok Authenticate".into(),
                 Ok(Response::Version(v)) => format!("ok Version {}", hex(&v)),
-                Err(e) => { let sw: u16 = e.into(); format!("err {}", sw) }
+                // the handler's status must come back as the very value it returned
+                Err(e) => if Some(e) == injected { "err same".to_string() } else { format!("err differs {:?} for {:?}", e, injected) }
             };
             format!("log={} res={}", if m.log.is_empty() { "-".to_string() } else { m.log.join(",") }, r)
         }
@@ -478,6 +502,10 @@ fn handle(line: &str, big: &mut [u8]) -> String {
             let Some(bytes) = unhex(hx) else { return "bad-case".into() };
             arb::case(ty, &bytes)
         }
+        ["defval", variant] => match glue::default_response_value(variant) {
+            Some(v) => format!("ok {}", v.show()),
+            None => "none".into(),
+        },
         ["tbl", name] => match glue::table(name) {
             Some(t) => t.iter().map(|(n, v)| format!("{}={}", n, v)).collect::<Vec<_>>().join(","),
             None => "bad-case".into(),
@@ -523,7 +551,31 @@ fn handle(line: &str, big: &mut [u8]) -> String {
     }
 }
 
+#[cfg(feature = "logging")]
+mod sink {
+    //! a logger that formats every record into a discarded buffer: with `--features logging` the
+    //! arguments of all of the crate's log lines are really evaluated and Display/Debug-formatted
+    use std::fmt::Write;
+    pub struct Sink;
+    impl log::Log for Sink {
+        fn enabled(&self, _: &log::Metadata) -> bool { true }
+        fn log(&self, record: &log::Record) {
+            let mut s = String::new();
+            let _ = write!(s, "{}", record.args());
+            std::hint::black_box(&s);
+        }
+        fn flush(&self) {}
+    }
+    pub static SINK: Sink = Sink;
+    pub fn install() {
+        let _ = log::set_logger(&SINK);
+        log::set_max_level(log::LevelFilter::Trace);
+    }
+}
+
 fn main() {
+    #[cfg(feature = "logging")]
+    sink::install();
     // silence the default panic message; panics are reported as outcomes
     std::panic::set_hook(Box::new(|_| {}));
     let stdin = std::io::stdin();
